@@ -233,9 +233,23 @@ def capture_real(runs):
             cur["_threshold"] = r.get("threshold")
             rec = {"country": r["country"], "option": r.get("option", {}), "threshold": r.get("threshold")}
             try:
-                with quiet():
-                    needs, interp = runutil.run_country(r["country"], runutil.option(**r.get("option", {})),
-                                                        title="c18_" + r["country"])
+                with quiet(), runutil.OptimizerCapture(want_rows=False) as ocap:
+                    try:
+                        needs, interp = runutil.run_country(r["country"], runutil.option(**r.get("option", {})),
+                                                            title="c18_" + r["country"])
+                    finally:
+                        # what each optimiser round was actually handed for meat (round 1 no-feed, round 2
+                        # feed-maximising, round 3 final), read from the optimiser's own constants
+                        lp = []
+                        for sv in ocap.solves:
+                            d = sv.get("lp_in") or {}
+                            lp.append({"ty": sv.get("ty"), "capture_error": sv.get("capture_error"),
+                                       "add_meat": d.get("add_meat"),
+                                       "meat_monthly": hx(d.get("meat_monthly", [])),
+                                       "meat_running": hx(d.get("meat_running", [])),
+                                       "meat_total": hx(d.get("meat_total", 0.0)),
+                                       "pin_meat": hx(d.get("pin_meat", []))})
+                        rec["lp_meat"] = lp
                 rec["needs_ratio"] = float(needs)
             except BaseException as e:  # noqa
                 rec["err"] = classify(e) + ": " + str(e)[:200]
